@@ -227,3 +227,12 @@ Print Assumptions C18_recursion_depth_le_nesting.
 Theorem C18_from_str_index0_safe : forall n, all_ok (from_str_index0 n) = true.
 Proof. exact Proofs.from_str_index0_safe. Qed.
 Print Assumptions C18_from_str_index0_safe.
+
+(** fmt/mod.rs:187 `format_ident!("{name}")`: every name the literal parser's `identifier` accepts -- with the
+    predicates `identifier` uses in the source, which must be the XID ones -- passes the check of Ident::new, for
+    any Unicode tables shared by both (their agreement is measured on every run: A-IDENT) *)
+Theorem C18_transparent_ident_valid :
+  forall xid_start xid_continue underscore name,
+    all_ok (transparent_ident_ops xid_start xid_continue underscore name) = true.
+Proof. exact Proofs.transparent_ident_valid. Qed.
+Print Assumptions C18_transparent_ident_valid.
